@@ -15,6 +15,64 @@ def obligations(ctx):
     out += pick(passivespec.passive_set(ctx), [("B-5", "add"), ("B-5b", "prune")])
     out += pick(writerspec.accept_row(ctx), [("B-6", "dedup")])
     out += scan_views(ctx)
+    out += passive_snapshot(ctx)
+    return out
+
+
+def passive_snapshot(ctx):
+    """PassiveBufferSet::non_empty: what a read sees of the passive buffers"""
+    import re
+    import z3
+    from .. import oblig, sym
+    from .flushspec import Builder
+    b = Builder(ctx, "memory-passive_buffer_set-{impl#0}-non_empty-{closure#0}.", "PassiveBufferSet::non_empty", {})
+    E, q = b.E, ctx.q
+    r = b.mk("B-8", "PassiveBufferSet::non_empty (the passive-buffer view of a read) contains every buffer that holds events and every "
+                    "buffer whose lock is busy at that moment (another read or the flush is using it) - a busy buffer is never left out, "
+                    "because its events may not be in a published segment yet")
+    out = [b.results["B-8"]]
+    if not r:
+        return out
+    tl = [e for e in E.events if re.search(r"Mutex::<MemTable>::try_lock$|Mutex::try_lock$", e.func)]
+    if tl:
+        r.nontrivial = True
+        pushes = [e for e in E.events if re.search(r"Vec::<.*>::push$", e.func)]
+        for t in tl:
+            mine = [p_ for p_ in pushes if p_.layer == t.layer]
+            pushed = z3.Or([p_.reach for p_ in mine]) if mine else z3.BoolVal(False)
+            d = z3.BitVec(f"disc({t.site})", 64)
+            res, model = q.check(t.reach, d == 1, z3.Not(pushed), domain=E.domain)
+            r.queries += 1
+            if res == z3.sat:
+                oblig.violated(r, E, q, t, model, "a passive buffer whose lock is busy is left out of the read's view")
+                return out
+            lens = [e for e in E.events if re.search(r"MemTable::len$", e.func) and e.layer == t.layer]
+            if lens:
+                ln = E.sym(lens[0].site, "usize")
+                res, model = q.check(t.reach, d == 0, lens[0].reach, z3.UGT(ln, 0), z3.Not(pushed), domain=E.domain)
+                r.queries += 1
+                if res == z3.sat:
+                    oblig.violated(r, E, q, t, model, "a passive buffer that holds events is left out of the read's view")
+                    return out
+        return out
+    # iterator form: the predicate lives in a closure
+    for f in ctx.find("memory-passive_buffer_set-{impl#0}-non_empty-{closure#0}-{closure#"):
+        Ec, err = ctx.load(re.sub(r"^.*snel_db\.", "", f).split(".2-2-")[0].replace("engine-core-", "") + ".", ghosts={})
+        if Ec is None:
+            continue
+        mo = [e for e in Ec.events if re.search(r"Result::<.*>::map_or", e.func)]
+        tl2 = [e for e in Ec.events if re.search(r"try_lock$", e.func)]
+        if mo and tl2:
+            r.nontrivial = True
+            dflt = Ec.to_term(mo[0].args[1], "bool") if len(mo[0].args) > 1 else None
+            if dflt is None or not z3.is_true(z3.simplify(dflt)):
+                r.status = "violated"
+                r.witness = {"what": "a passive buffer whose lock is busy is left out of the read's view (the predicate's fallback for a failed "
+                                     "try_lock is not `true`): a read that overlaps another read or the flush of that buffer misses its events",
+                             "span": f"{mo[0].span[0]}:{mo[0].span[1]}" if mo[0].span else None, "call": mo[0].func[:80], "path": [], "model": {}}
+            return out
+    r.status = "inconclusive"
+    r.notes.append("neither the loop form nor a try_lock().map_or(..) predicate was recognised")
     return out
 
 
